@@ -868,6 +868,81 @@ def sizes_table():
 
 
 # ------------------------------------------------------------------------------------------------ driver
+def interrupted_pipe_writes(ctx):
+    """a write to a blocking pipe may return SHORT: when a signal with a Python-level handler arrives while the writer is blocked
+    with part of the chunk already in the pipe, os.write() reports the bytes written so far (PEP 475 retries only when nothing was
+    written). Packets larger than the pipe, a slow reader, an interval timer firing every millisecond: every packet must still
+    arrive whole, in order, unaltered. Runs in the main thread (signals are delivered there); the timer is removed afterwards."""
+    import os
+    import signal
+    import threading
+    from rpyc.core.channel import Channel
+    from rpyc.core.stream import PipeStream
+    if threading.current_thread() is not threading.main_thread():
+        ctx.count("interrupted_pipe_writes_skipped_not_main_thread")
+        return
+    a, b = PipeStream.create_pair()
+    for fd in (a.outgoing.fileno(),):
+        _shrink_pipe(fd, 4096)
+    tx, rx = Channel(a, compress=False), Channel(b, compress=False)
+    sizes = [64000, 200000, 5, 131071, 70000, 1]
+    packets = [payload(n, "rnd", 100 + i) for i, n in enumerate(sizes)]
+    got, err = [], []
+
+    def reader():
+        import time
+        try:
+            for _ in packets:
+                time.sleep(0.01)            # a slow reader keeps the writer blocked inside its chunks
+                got.append(rx.recv())
+        except BaseException as e:
+            err.append(e)
+    th = threading.Thread(target=reader, daemon=True, name="rv-pipe-reader")
+    short = []
+    orig_write = os.write
+
+    def counting_write(fd, data):
+        n = orig_write(fd, data)
+        if n < len(data):
+            short.append((len(data), n))
+        return n
+    ticks = []
+    old_handler = signal.signal(signal.SIGALRM, lambda signum, frame: ticks.append(1))
+    os.write = counting_write
+    wit = dict(family="interrupted-pipe-writes", sizes=sizes)
+    try:
+        th.start()
+        signal.setitimer(signal.ITIMER_REAL, 0.001, 0.001)
+        try:
+            for p in packets:
+                tx.send(p)
+        finally:
+            signal.setitimer(signal.ITIMER_REAL, 0, 0)
+        th.join(30)
+    except BaseException as e:
+        err.append(e)
+    finally:
+        signal.setitimer(signal.ITIMER_REAL, 0, 0)
+        signal.signal(signal.SIGALRM, old_handler)
+        os.write = orig_write
+        for c in (tx, rx):
+            try:
+                c.close()
+            except Exception:
+                pass
+        th.join(5)
+    ctx.case(("interrupted-pipe-writes", len(short) > 0), nontrivial=True)
+    ctx.count("pipe_writes_that_returned_short", len(short))
+    ctx.count("timer_signals_during_pipe_writes", len(ticks))
+    if not short:
+        ctx.count("interrupted_pipe_writes_without_a_short_write")      # the kernel did not cooperate this time: nothing to judge
+        return
+    if got != packets or err:
+        i = next((k for k, (x, y) in enumerate(zip(got, packets)) if x != y), len(got))
+        ctx.violation("C05/pipes/short-write/sequence-differs", "%d writes to the pipe returned short (e.g. %r); the receiver got %d of %d packets, the first wrong one is "
+                      "number %d%s" % (len(short), short[0], len(got), len(packets), i, ("; " + repr(err[0])[:120]) if err else ""), wit)
+
+
 def closed_stays_closed(ctx):
     """'a transport that ends yields EOFError at the reader or writer and a closed stream' - and stays that way: a channel that
     was closed must not come back to life when the process opens new descriptors (which get the numbers just released), and a
@@ -942,6 +1017,7 @@ def run(ctx):
     first = ctx.shard[0] == 0
     if first:
         closed_stays_closed(ctx)
+        interrupted_pipe_writes(ctx)
     small, large = sizes_table()
     table = set(small + large)
     zc = []
